@@ -43,6 +43,56 @@ def validate_evidence(path):
     return []
 
 
+def optimisation_sensitive_sites():
+    """`assert` statements and uses of `__debug__` in the library source:
+    the only constructs whose behaviour differs under `python -O`.  When
+    there are none (the pinned tree has none) running the interpreter with
+    optimisation on cannot change any result and the second run is skipped."""
+    import ast
+    sites = []
+    root = os.path.join(runner.REPO, 'pamqp')
+    for name in sorted(os.listdir(root)):
+        if not name.endswith('.py'):
+            continue
+        path = os.path.join(root, name)
+        try:
+            tree = ast.parse(open(path, encoding='utf-8').read())
+        except (OSError, SyntaxError):
+            continue
+        for node in ast.walk(tree):
+            if isinstance(node, ast.Assert) or (
+                    isinstance(node, ast.Name) and node.id == '__debug__'):
+                sites.append('%s:%d' % (name, node.lineno))
+    return sites
+
+
+def rerun_optimised(prop, tier, seed):
+    """The same check in a child interpreter started with -O (asserts
+    stripped, __debug__ false): process environment, like the time zone.
+    Returns (violations, summary line)."""
+    import tempfile
+    fd, out = tempfile.mkstemp(prefix='opt-', suffix='.json',
+                               dir=os.path.join(VERIF, '.cache'))
+    os.close(fd)
+    env = dict(os.environ, MC_OPT_CHILD=out, VERIF_SEED=str(seed))
+    try:
+        res = subprocess.run([sys.executable, '-O', '-m', 'mc.cli', prop,
+                              '--tier', tier, '--no-evidence'], env=env,
+                             capture_output=True, text=True, timeout=7200)
+        try:
+            with open(out) as fh:
+                viol = json.load(fh)
+        except (OSError, ValueError):
+            viol = None
+        last = (res.stdout.strip().splitlines() or [''])[-1]
+        return viol, last, res.returncode
+    finally:
+        try:
+            os.unlink(out)
+        except OSError:
+            pass
+
+
 def main(argv=None):
     ap = argparse.ArgumentParser()
     ap.add_argument('prop')
@@ -66,8 +116,15 @@ def main(argv=None):
     if args.replay:
         with open(args.replay) as fh:
             rep = json.load(fh)
+        case = rep['case']
+        if isinstance(case, dict) and case.get('python_O'):
+            if not sys.flags.optimize:
+                res = subprocess.run([sys.executable, '-O', '-m', 'mc.cli'] +
+                                     sys.argv[1:])
+                return res.returncode
+            case = case['case']
         ctx = runner.Ctx(prop, args.tier, seed)
-        mod.replay(rep['case'], ctx)
+        mod.replay(case, ctx)
         if ctx.violations:
             v = ctx.violations[0]
             print('REPLAY property=%s still violates: %s' % (prop,
@@ -112,6 +169,32 @@ def main(argv=None):
     extras = {}
     if hasattr(mod, 'finish'):
         extras = mod.finish(merged, args.tier, seed) or {}
+    child_out = os.environ.get('MC_OPT_CHILD')
+    if child_out:
+        # this IS the optimised child: hand the violations to the parent
+        runner.write_json(child_out, [
+            {k: v.get(k) for k in ('fingerprint', 'message', 'case',
+                                   'expected', 'observed')}
+            for v in merged.violations[:200]])
+    else:
+        sites = optimisation_sensitive_sites()
+        extras['python_O_sensitive_sites'] = sites[:20]
+        if sites:
+            viol, last, rc = rerun_optimised(prop, args.tier, seed)
+            extras['python_O_rerun'] = last[:300]
+            if viol is None or rc == 2:
+                merged.errors.append('the rerun under python -O failed: ' +
+                                     last[:300])
+            for v in viol or []:
+                v['fingerprint'] = 'python -O|' + str(v['fingerprint'])
+                v['message'] = ('[interpreter started with -O: asserts '
+                                'stripped] ' + str(v['message']))
+                v['case'] = {'python_O': True, 'case': v.get('case')}
+                merged.violations.append(v)
+                merged.nviolations += 1
+        else:
+            extras['python_O_rerun'] = ('not needed: no assert statement '
+                                        'and no __debug__ in pamqp/*.py')
     wall = time.time() - t0
 
     if merged.errors:
